@@ -113,7 +113,7 @@ static void sample(void)
    reports the access itself). */
 static void __attribute__((noinline)) scrub_stack(void)
 {
-    volatile unsigned char pad[24 * 1024];
+    volatile unsigned char pad[200 * 1024];
     for (size_t i = 0; i < sizeof pad; i++)
         pad[i] = 0xA5;
 }
@@ -825,6 +825,7 @@ static void server_task(void *arg)
     char addr[128];
     snprintf(addr, sizeof addr, "%s:srv.verif.test:0", g_tp);
     struct xcm_attr_map *a = xcm_attr_map_create();
+    xcm_attr_map_add_str(a, "xcm.service", "any");
     if (param_int((const char *)arg, "nb", 0))
         xcm_attr_map_add_bool(a, "xcm.blocking", false);
     g_t0 = env_now_ns();
@@ -873,7 +874,8 @@ static void scenario_server(const char *params)
             snprintf(sig, sizeof sig, "C13/server-unresolvable/late/dns=%s/tp=%s", SMODE[s_mode], g_tp);
             VIOL(sig, "xcm_server returned after %lld ms", (long long)(el / 1000000));
         }
-    } else if (!s_sock) {
+    } else if (!s_sock && !(s_mode == 4 && s_errno == ENOENT && el >= 10 * NS)) {
+        /* (a late answer that takes longer than the 10 s the synchronous resolution allows is a timeout) */
         snprintf(sig, sizeof sig, "C13/server-resolvable/got=%s/dns=%s/tp=%s", errname(s_errno), SMODE[s_mode], g_tp);
         VIOL(sig, "xcm_server on a name that resolves (%s) to 127.0.0.1 failed with %s", SMODE[s_mode], errname(s_errno));
     }
